@@ -127,8 +127,7 @@ func newPackage(program *loader.Program, pkgInfo *loader.PackageInfo, plugins []
 	for _, fileInfo := range fileInfos {
 
 		changed := false
-		calls := append(fileInfo.undefined, fileInfo.derived...)
-		for _, call := range calls {
+		for _, call := range fileInfo.calls {
 			// log.Printf("call: %v", call.Name)
 			if call.HasUndefined() {
 				// Only functions that are supported by a code generator plugin should be added to undefined.
